@@ -19,8 +19,14 @@ from experimaestro import (
     pathgenerator,
 )
 
-#: observation log used by C13 (instrumented __init__/__post_init__/execute)
+#: observation log used by C13 (objects are kept in the log so that their ids cannot be recycled)
 LOG = []
+
+
+def _post(self):
+    """Logged by every class: which of its parameters are already readable when __post_init__ runs."""
+    names = list(type(self).__getxpmtype__().arguments)
+    LOG.append(("post", self, {n: hasattr(self, n) for n in names}))
 
 
 class Color(Enum):
@@ -31,6 +37,7 @@ class Color(Enum):
 
 class Leaf(Config):
     __xpmid__ = "u.leaf"
+    __post_init__ = _post
     i: Param[int]
     f: Param[float] = 0.5
     s: Param[str] = "d"
@@ -43,8 +50,6 @@ class Leaf(Config):
     c: Constant[int] = 1
     gen: Annotated[Path, pathgenerator("leaf.txt")]
 
-    def __post_init__(self):
-        LOG.append(("post", id(self), "leaf", dict(i=self.i, f=self.f, s=self.s)))
 
 
 class Leafx(Leaf):
@@ -54,6 +59,7 @@ class Leafx(Leaf):
 
 class Box(Config):
     __xpmid__ = "u.box"
+    __post_init__ = _post
     child: Param[Leaf]
     ochild: Param[Optional[Leaf]] = None
     mchild: Meta[Optional[Leaf]] = None
@@ -70,28 +76,27 @@ class Box(Config):
     sb: Param[str] = "d"
     gen: Annotated[Path, pathgenerator("box.txt")]
 
-    def __post_init__(self):
-        LOG.append(("post", id(self), "box", dict(child=id(self.child))))
 
 
 class Ring(Config):
     __xpmid__ = "u.ring"
+    __post_init__ = _post
     v: Param[int] = 0
     nxt: Param[Optional["Ring"]] = None
     alt: Param[Optional["Ring"]] = None
     box: Param[Optional[Box]] = None
 
-    def __post_init__(self):
-        LOG.append(("post", id(self), "ring", dict(v=self.v, nxt=id(self.nxt) if self.nxt is not None else None)))
 
 
 class Out(Config):
     __xpmid__ = "u.out"
+    __post_init__ = _post
     v: Param[int] = 0
 
 
 class Holder(Config):
     __xpmid__ = "u.holder"
+    __post_init__ = _post
     t: Param[Optional["Job"]] = None
     o: Param[Optional[Out]] = None
     lt: Param[List["Job"]] = []
@@ -103,6 +108,7 @@ class Holder(Config):
 
 class Job(Task):
     __xpmid__ = "u.job"
+    __post_init__ = _post
     x: Param[int] = 0
     code: Meta[int] = 0
     up: Param[Optional["Job"]] = None
@@ -115,11 +121,12 @@ class Job(Task):
     out: Annotated[Path, pathgenerator("out.txt")]
 
     def execute(self):
-        LOG.append(("body", id(self), "job"))
+        LOG.append(("body", self))
 
 
 class JobOut(Task):
     __xpmid__ = "u.jobout"
+    __post_init__ = _post
     x: Param[int] = 0
     code: Meta[int] = 0
     up: Param[Optional[Job]] = None
@@ -128,32 +135,30 @@ class JobOut(Task):
         return dep(Out(v=self.x))
 
     def execute(self):
-        LOG.append(("body", id(self), "jobout"))
+        LOG.append(("body", self))
 
 
 class PreT(LightweightTask):
     __xpmid__ = "u.pre"
+    __post_init__ = _post
     k: Param[int] = 0
     leaf: Param[Optional[Leaf]] = None
     h: Param[Optional[Holder]] = None
 
-    def __post_init__(self):
-        LOG.append(("post", id(self), "pre", dict(k=self.k)))
 
     def execute(self):
-        LOG.append(("exec", id(self), "pre", self.k))
+        LOG.append(("exec", self))
 
 
 class InitT(LightweightTask):
     __xpmid__ = "u.init"
+    __post_init__ = _post
     k: Param[int] = 0
     h: Param[Optional[Holder]] = None
 
-    def __post_init__(self):
-        LOG.append(("post", id(self), "init", dict(k=self.k)))
 
     def execute(self):
-        LOG.append(("exec", id(self), "init", self.k))
+        LOG.append(("exec", self))
 
 
 # ---- class extension twins (same type identifier, one extra defaulted / Meta / generated parameter)
